@@ -26,6 +26,7 @@ import (
 	"github.com/gardenbed/emerge/internal/regex/parser/nfa"
 	"github.com/gardenbed/emerge/zz_verif/gen"
 	"github.com/gardenbed/emerge/zz_verif/simrt"
+	simctl "github.com/moorara/algo/zz_simctl"
 )
 
 type Engine struct {
@@ -59,6 +60,7 @@ const (
 	kCLI
 	kLongLexeme
 	kManySymbols
+	kResourceProbe
 )
 
 func (e Engine) Plan(tier string, seed uint64) []simrt.Case {
@@ -89,6 +91,7 @@ func (e Engine) Plan(tier string, seed uint64) []simrt.Case {
 	for i := 0; i < nLong; i++ {
 		add(simrt.Mix(seed, 14, 4, uint64(i)), "long-lexeme", kLongLexeme)
 	}
+	add(simrt.Mix(seed, 14, 6, 0), "resource-probe", kResourceProbe)
 	nMany := 16
 	if tier == "thorough" {
 		nMany = 160
@@ -354,6 +357,7 @@ var nastyBytes = gen.NastyBytes
 
 func (e Engine) Run(t *simrt.Tape, c simrt.Case, x *simrt.Ctx) *simrt.Result {
 	res := simrt.NewResult()
+	simctl.Begin(simctl.Sorted, c.Seed) // the dependency's clock-seeded PRNGs follow the case seed: exact replay
 	B := ebnflexer.VerifBufferSize
 	switch c.Args[0] {
 	case kText, kTruncAll:
@@ -501,6 +505,65 @@ func (e Engine) Run(t *simrt.Tape, c simrt.Case, x *simrt.Ctx) *simrt.Result {
 						return res
 					}
 				}
+			}
+		}
+
+	case kResourceProbe:
+		// fixed witnesses of size-related behaviour of the regex -> DFA pipeline (block sizes of the
+		// dependency's queue and stack are 64 and 1024)
+		for _, p := range []string{"a{63}", "a{64}", "a{65}", "(ab){32}c", "[a-c]{64}", "a{128}", "x{1024}y?"} {
+			text := []byte("grammar g;\nTK = /" + p + "/;\nstart = TK;\n")
+			cr := callEntry(5, text, simrt.FullPlan())
+			res.Evals++
+			res.Key("pipeline_witness", p, outcomeClass(cr))
+			if cls, msg := judge(cr, len(text), B); cls != "" {
+				if id := knownFinding(x, cls); id != "" {
+					res.Known[id]++
+					continue
+				}
+				res.Violation = &simrt.Violation{Class: cls + "[witness]", Message: fmt.Sprintf("specification with token pattern /%s/: %s", p, msg), Detail: map[string]any{"text": string(text)}}
+				return res
+			}
+		}
+		// Patterns whose cost explodes are probed in a memory-limited child process (2 GB, 40 s), one
+		// pattern per process, instead of in a worker: bracket ranges over a large part of the code
+		// space are expanded into one transition per code point.
+		exe, err := os.Executable()
+		if err != nil {
+			panic(err)
+		}
+		for _, p := range []string{`[a-z]+`, `[\x0100-\x2000]`, `[a-\x0010FFFF]*`, `[\x00010000-\x0010FFFF]`} {
+			cmd := exec.Command("sh", "-c", "ulimit -v 2000000; exec \"$0\" -pattern-probe \"$1\"", exe, p)
+			var out bytes.Buffer
+			cmd.Stdout, cmd.Stderr = &out, &out
+			done := make(chan error, 1)
+			if err := cmd.Start(); err != nil {
+				panic(err)
+			}
+			go func() { done <- cmd.Wait() }()
+			outcome := "ok"
+			select {
+			case err := <-done:
+				if err != nil {
+					outcome = "died"
+					if strings.Contains(out.String(), "out of memory") {
+						outcome = "out_of_memory"
+					}
+				}
+			case <-time.After(40 * time.Second):
+				cmd.Process.Kill()
+				outcome = "timeout"
+			}
+			res.Evals++
+			res.Key("resource_probe", p, outcome)
+			if outcome != "ok" {
+				cls := "resource_exhaustion:" + outcome + "[wide_range]"
+				if id := knownFinding(x, cls); id != "" {
+					res.Known[id]++
+					continue
+				}
+				res.Violation = &simrt.Violation{Class: cls, Message: fmt.Sprintf("compiling the pattern %q exhausts 2 GB of memory / 40 s (%s): %s", p, outcome, clip(firstLineWith(out.String(), "fatal error")))}
+				return res
 			}
 		}
 
@@ -776,6 +839,16 @@ func (e Engine) runCLI(res *simrt.Result, x *simrt.Ctx, dir, class string, args 
 		}
 	}
 	return false
+}
+
+// PatternProbe compiles one pattern with both back ends (run in a memory-limited child process).
+func PatternProbe(p string) {
+	if n, err := nfa.Parse(p); err == nil && n != nil {
+		n.ToDFA()
+	}
+	if a, err := regexast.Parse(p); err == nil && a != nil {
+		a.ToDFA()
+	}
 }
 
 // compactBelow cuts a line-structured specification after the last complete line below limit bytes.
